@@ -671,6 +671,25 @@ class MiniEval:
                         return True
         return False
 
+    def _imported_from_safe_module(self, e: ast.Name):
+        """(module, attribute) when the fragment's module has `from <safe module> import <attribute> [as name]` and the attribute is a
+        constant of that module (string.ascii_uppercase, math.pi ...)"""
+        n = e
+        while getattr(n, "parent", None) is not None:
+            n = n.parent
+            body = getattr(n, "body", None)
+            if isinstance(body, list):
+                for st in body:
+                    if isinstance(st, ast.ImportFrom) and st.level == 0 and st.module in SAFE_MODULES:
+                        for a in st.names:
+                            if (a.asname or a.name) == e.id:
+                                import importlib
+
+                                v = getattr(importlib.import_module(st.module), a.name, None)
+                                if isinstance(v, (str, bytes, int, float, tuple, frozenset)):
+                                    return (st.module, a.name)
+        return None
+
     def _ask(self, e: ast.AST) -> Any:
         try:
             v = self.oracle(e, self)
@@ -679,6 +698,12 @@ class MiniEval:
                 import importlib
 
                 return importlib.import_module(e.id)
+            if isinstance(e, ast.Name):
+                src = self._imported_from_safe_module(e)
+                if src is not None:
+                    import importlib
+
+                    return getattr(importlib.import_module(src[0]), src[1])
             if isinstance(e, ast.Name):
                 g = self._module_global(e)
                 if g is not None:
